@@ -673,6 +673,94 @@ def enum_exhaustive(tier):
             yield {"rx": rx, "cfg": cfg}
 
 
+# ----------------------------------------------------------------------------------------------------
+# the same network OBJECT analysed again after edits (histories): must equal a freshly built network
+# ----------------------------------------------------------------------------------------------------
+def body_edited_object(case, rec):
+    """Analyse a hypergraph, edit it in place (remove + add, add, remove), analyse again after every edit: the
+    canonical graph, automorphism count and orbits must equal those of a network built from scratch with the
+    same reactions and ids.  Catches analysis state that survives an edit of the analysed object."""
+    import synkit.CRN.Topo.canon as canon_mod
+    from synkit.CRN.Topo.automorphism import CRNAutomorphism
+
+    cfg = case["cfg"]
+    nkeys, ekeys = cfg_keys(cfg)
+    kw = cfg_kwargs(cfg)
+    H, ids = build(case["rx"])
+    model = {i: (dict(r), dict(p), rule) for i, (r, p, rule) in zip(ids, case["rx"])}
+
+    def facts(hg):
+        s = canon_mod.CRNCanonicalizer(hg, node_attr_keys=nkeys, edge_attr_keys=ekeys, **kw).summary()
+        a = CRNAutomorphism(hg, node_attr_keys=nkeys, **kw).summary(max_count=BIG, timeout_sec=None)
+        if a["stopped_early"]:
+            raise Inconclusive()
+        return (R.graph_key(s["canon_graph"], nkeys, ekeys), s["automorphism_count"], set(R.partition(s["orbits"])), a["automorphism_count"], set(R.partition(a["orbits"])))
+
+    def fresh():
+        from synkit.CRN.Hypergraph.hypergraph import CRNHyperGraph
+
+        F = CRNHyperGraph()
+        for eid, (r, p, rule) in model.items():
+            F.add_rxn(dict(r), dict(p), rule=rule, edge_id=eid)
+        return F
+
+    facts(H)  # first analysis (fills whatever the implementation keeps)
+    count_preserving = False
+    for k, op in enumerate(case["ops"]):
+        if not model and op[0] != "add":
+            continue
+        if op[0] == "swap":
+            eid = sorted(model)[op[1] % len(model)]
+            r, p, rule = op[2]
+            if not r and not p:
+                continue
+            before = (len(H.species), len(H.edges))
+            H.remove_rxn(eid)
+            del model[eid]
+            e = H.add_rxn(dict(r), dict(p), rule=rule)
+            model[e.id] = (dict(r), dict(p), rule)
+            count_preserving |= before == (len(H.species), len(H.edges))
+        elif op[0] == "add":
+            r, p, rule = op[1]
+            if not r and not p:
+                continue
+            e = H.add_rxn(dict(r), dict(p), rule=rule)
+            model[e.id] = (dict(r), dict(p), rule)
+        elif op[0] == "rm":
+            if len(model) <= 1:
+                continue
+            eid = sorted(model)[op[1] % len(model)]
+            H.remove_rxn(eid)
+            del model[eid]
+        if k % 2 == case.get("phase", 0) % 2 or k == len(case["ops"]) - 1:
+            got, want = facts(H), facts(fresh())
+            names = ("canonical graph", "automorphism_count", "orbits", "CRNAutomorphism count", "CRNAutomorphism orbits")
+            for name, g, w in zip(names, got, want):
+                if g != w:
+                    raise Violation(
+                        "edited-object",
+                        f"{cfg_tag(cfg)}: after edit {k + 1} ({op[0]}) the {name} of the edited network object differs from a freshly built "
+                        f"network with the same reactions {crn_gen.rx_str({'rx': list(model.values())})}",
+                    )
+    rec.nt(count_preserving)
+    rec.label(cfg_tag(cfg), "count-preserving-edit" if count_preserving else "counts-changed")
+    rec.show(dict(reactions=crn_gen.rx_str(case), ops=[o[0] for o in case["ops"]], cfg=cfg_tag(cfg)))
+
+
+@st.composite
+def edited_cases(draw, tier=None):
+    sp = crn_gen.SPECIES[:4]
+    rxn = crn_gen.rxn_strategy(sp, 2, True, ["r", "q"], 2)
+    rx = draw(st.lists(rxn, min_size=2, max_size=4))
+    op = st.one_of(
+        st.tuples(st.just("swap"), st.integers(0, 5), rxn).map(list),
+        st.tuples(st.just("swap"), st.integers(0, 5), rxn).map(list),
+        st.tuples(st.just("add"), rxn).map(list),
+        st.tuples(st.just("rm"), st.integers(0, 5)).map(list),
+    )
+    return {"rx": rx, "cfg": draw(_cfg_strategy()), "ops": draw(st.lists(op, min_size=1, max_size=5)), "phase": draw(st.integers(0, 1))}
+
+
 def _cfg_strategy():
     return st.sampled_from(ALL_CFGS)
 
@@ -786,6 +874,14 @@ SUBS = [
         examples={"quick": 3000, "thorough": 40000},
         shards={"quick": 16, "thorough": 16},
         doc="simulated reuse of freed addresses for the id()-keyed refinement cache",
+    ),
+    Sub(
+        "edited_object",
+        body_edited_object,
+        strategy=edited_cases,
+        examples={"quick": 3000, "thorough": 40000},
+        shards={"quick": 16, "thorough": 16},
+        doc="histories: analyse, edit the same hypergraph object in place (remove+add / add / remove), analyse again; must equal a freshly built network",
     ),
     Sub(
         "wl",
